@@ -26,10 +26,11 @@ let scanner_of_string = function
   | "plain" | "literal" | "matching" -> Plain | "counting" -> Counting O | "modal" -> Modal false | s -> failwith ("scanner " ^ s)
 
 let obs (lx : clexer) : string =
-  Printf.sprintf "(ts %s) (ps %s) (cur %s) (pk %s) (emp %s) (flt %s)"
+  Printf.sprintf "(ts %s) (ps %s) (cur %s) (pk %s) (emp %s) (flt %s) (pps %s) (pcur %s)"
     (s_span (c_token_span lx)) (s_span (c_parse_span lx)) (s_pos (c_cursor_pos lx))
     (s_opt s_span (c_peek_token_span lx)) (s_bool (c_at_end lx))
     (s_bool (match lx.c_filter with Some _ -> true | None -> false))
+    (s_opt s_span (c_peek_parse_span lx)) (s_opt s_pos (c_peek_cursor_pos lx))
 
 exception Stop of string
 
@@ -60,6 +61,7 @@ and run_op buf lx op : clexer =
   | Sexp.L (Sexp.A "advupto" :: ks) -> let (r, lx') = get (c_advance_up_to (fuel_of lx) lx (kindset ks)) in fin (s_bool r) lx'
   | Sexp.L [Sexp.A "setfilter"; f] -> let (r, lx') = get (c_set_filter lx (fspec_of_sexp f)) in fin (s_bool (r <> None)) lx'
   | Sexp.A "sublex" | Sexp.A "intosub" -> let lx' = get (c_start_sublex lx) in fin "-" lx'
+  | Sexp.A "emptyf" -> let (r, lx') = get (c_is_empty_with_filter lx) in fin (s_bool r) lx'
   | Sexp.A "query" -> fin "-" lx
   | Sexp.A "drain" ->
     let (l, lx') = get (c_drain (fuel_of lx) lx) in
